@@ -172,6 +172,12 @@ class StrDomain(Domain):
                             for v in dn.vars:
                                 if v['decl'] == x.decl and v.get('init') and v['init'] in dn.tu.ex:
                                     return self._charset(Node(dn.tu, v['init']))
+            if x.k == 'ref' and x.dk in ('global', 'static') and fn is not None:
+                # a file-scope constant (`static constexpr const char *AnySeparator = "/\\";`)
+                for tu_ in [fn.tu]:
+                    for g_ in getattr(tu_, 'globals', []) or []:
+                        if (g_.get('decl') == x.decl or (g_.get('qname') and g_.get('qname') == (x.d.get('qname') or x.qname))) and g_.get('init') and g_['init'] in tu_.ex:
+                            return self._charset(Node(tu_, g_['init']))
         return None
 
     def _cut(self, s, pos, what):
